@@ -27,15 +27,16 @@ class Img(np.ndarray):
     pass
 
 
-def blob_movie(rng, nframes, amp=200, bg=0, late=False):
-    """small uint8 blob movie for find_link_iter (blobs of amplitude amp on a constant background bg)"""
+def blob_movie(rng, nframes, amp=200, bg=0, late=False, width=64):
+    """small uint8 blob movie for find_link_iter (blobs of amplitude amp on a constant background bg).
+    width < 64: a narrow channel (the relocation window around a lost feature then spans the whole image width)"""
     n = rng.randint(2, 4)
-    pos = [[rng.randint(12, 52), rng.randint(12, 52)] for _ in range(n)]
+    pos = [[rng.randint(12, 52), rng.randint(12, 52) if width == 64 else width // 2] for _ in range(n)]
     # keep blobs apart
     for i in range(n):
         pos[i][0] = 12 + (i * 14) % 42
     frames = []
-    yy, xx = np.mgrid[0:64, 0:64]
+    yy, xx = np.mgrid[0:64, 0:width]
     # births and deaths: a blob may appear only in a later frame (a trajectory born while other jobs are running)
     # or vanish before the end
     born = [rng.choice([0, 0, 1, 2]) for _ in pos]
@@ -45,25 +46,25 @@ def blob_movie(rng, nframes, amp=200, bg=0, late=False):
     if late:
         born[-1] = rng.randint(1, max(1, nframes - 1)); dies[-1] = 99
     for t in range(nframes):
-        img = np.zeros((64, 64)) + bg
+        img = np.zeros((64, width)) + bg
         for k, p in enumerate(pos):
             if born[k] <= t < dies[k]:
                 img += amp * np.exp(-((yy - p[0]) ** 2 + (xx - p[1]) ** 2) / (2 * 2.0 ** 2))
-            p[1] += rng.randint(-2, 2)
-            p[1] = min(max(p[1], 10), 54)
+            p[1] += rng.randint(-2, 2) if width == 64 else rng.randint(-1, 1)
+            p[1] = min(max(p[1], 10), 54) if width == 64 else min(max(p[1], width // 2 - 2), width // 2 + 2)
         im = np.clip(img, 0, 255).astype(np.uint8).view(Img)
         im.frame_no = t
         frames.append(im)
     return frames
 
 
-def make_job(rng, kind, late=False):
+def make_job(rng, kind, late=False, width=64):
     if kind == 'find_link':
         amp, bg = rng.choice([(200, 0), (60, 0), (100, 120), (40, 0), (120, 60)])
         nfr = rng.randint(3 if late else 2, 5)
         # detections withheld from the linker in frames after the first (forces relocation from the image)
         withhold = {t: rng.choice(['all', 'first', 'none']) for t in range(1, nfr)}
-        return dict(kind=kind, images=blob_movie(rng, nfr, amp=amp, bg=bg, late=late), memory=rng.choice([0, 1]), amp=amp, bg=bg, withhold=withhold)
+        return dict(kind=kind, images=blob_movie(rng, nfr, amp=amp, bg=bg, late=late, width=width), memory=rng.choice([0, 1]), amp=amp, bg=bg, withhold=withhold)
     q = rng.random() < 0.4
     fr = linkgen.gen_movie(rng, quarter=q, nframes=rng.randint(2, 6))
     ndim = fr[0].shape[1]
@@ -153,6 +154,7 @@ def run_schedule(jobs, sched):
     # table jobs of one 'share_tables' group are given THE SAME list of per-frame DataFrame objects (re-linking the
     # frames one has in memory with other parameters)
     groups = {}
+    img_before = {id(im): np.array(im, copy=True) for job in jobs if job['kind'] == 'find_link' for im in job['images']}
     for job in jobs:
         job.pop('_kept', None); job.pop('_dfs', None)
         g = job.get('share_tables')
@@ -177,6 +179,13 @@ def run_schedule(jobs, sched):
     for key, arr in shared.items():
         if [float(x) for x in key] != arr.tolist():
             outs['_modified_argument'] = (list(map(float, key)), arr.tolist())
+    # the frames handed to find_link jobs are the caller's data (no preprocessing: the linker works on them directly);
+    # two jobs may be given the same frame objects
+    for job in jobs:
+        if job['kind'] == 'find_link':
+            for t, im in enumerate(job['images']):
+                if not np.array_equal(np.asarray(im), img_before[id(im)]):
+                    outs['_modified_frames'] = t
     # labels a table job has handed out must still be there when everything has finished
     for j, job in enumerate(jobs):
         if job['kind'] == 'df_iter' and job.get('_kept'):
@@ -292,6 +301,15 @@ def _run(chk):
             sched = [j for j, job in enumerate(jobs) for _ in range(nsteps(job))]
             if rng.random() < 0.5:
                 rng.shuffle(sched)
+        elif rng.random() < 0.1:
+            # two find_link jobs given THE SAME frame objects (narrow channel: the relocation window spans the whole
+            # image width), each withholding other detections: a job must not write into the frames it is given
+            a = make_job(rng, 'find_link', width=rng.choice([17, 19, 21]))
+            b = dict(a, withhold={t: rng.choice(['all', 'first', 'none']) for t in range(1, len(a['images']))}, memory=rng.choice([0, 1]))
+            jobs = [a, b]
+            sched = [j for j, job in enumerate(jobs) for _ in range(nsteps(job))]
+            if rng.random() < 0.6:
+                rng.shuffle(sched)
         elif rng.random() < 0.15:
             # a find_link job in which a trajectory is born in a later frame, while another job (of any kind) starts
             # and advances in between: the newborn must get an id from ITS job
@@ -367,6 +385,10 @@ def _run(chk):
         if '_modified_argument' in inter:
             chk.violation('search_range array modified', 'a linking call modified the search_range array it was given: %s -> %s (other jobs using the same array are affected)' % inter.pop('_modified_argument'),
                           dict(kind='schedule', case=jsonable_jobs(jobs, sched)))
+        if '_modified_frames' in inter:
+            tt = inter.pop('_modified_frames')
+            chk.violation('find_link job: frame array modified', 'a find_link_iter job wrote into frame %d it was given (schedule %s): other jobs reading the same frames are affected' % (tt, sched),
+                          dict(kind='schedule', case=jsonable_jobs(jobs, sched)))
         if '_aliasing' in inter:
             jj, early, late = inter.pop('_aliasing')
             chk.violation('table job: labels already handed out changed afterwards',
@@ -374,10 +396,10 @@ def _run(chk):
                           dict(kind='schedule', job=jj, case=jsonable_jobs(jobs, sched)))
         for o in (solo, again):
             if isinstance(o, dict):
-                o.pop('_modified_argument', None); o.pop('_aliasing', None)
+                o.pop('_modified_argument', None); o.pop('_aliasing', None); o.pop('_modified_frames', None)
         for v in solo.values():
             if isinstance(v, dict):
-                v.pop('_modified_argument', None); v.pop('_aliasing', None)
+                v.pop('_modified_argument', None); v.pop('_aliasing', None); v.pop('_modified_frames', None)
         chk.count(('sched', jsonable_jobs(jobs, sched)), len(set(sched)) >= 2 and len(sched) >= 4)
         chk.tally('jobs=%d' % len(jobs))
         for j, job in enumerate(jobs):
